@@ -210,22 +210,26 @@ OneSided == LET own == OwnNbMat IN [i \in 1..N |-> [j \in 1..N |-> IF i = j \/ o
 Masked(K, pat) == [i \in 1..N |-> [j \in 1..N |-> IF pat[i][j] = 1 THEN K[i][j] ELSE 0]]
 NoTies == LET D == DM IN \A i \in 1..N : \A a, b \in 1..N : (a # i /\ b # i /\ a # b) => D[i][a] # D[i][b]
 IsGauss == meth.name = "gauss"
+\* the value invariants do not depend on k, the pattern invariants not on the method: each is evaluated once
+\* per point set (k = 0 / first method) instead of for every combination
+ValState == Done /\ kk = 0
+PatState == Done /\ meth = MethodSeq[1]
 
-InvSym        == Done => LET K == KMat IN \A i, j \in 1..N : K[i][j] = K[j][i]
-InvGaussDiag  == (Done /\ IsGauss) => LET K == KMat IN \A i \in 1..N : K[i][i] = KS
-InvGaussRange == (Done /\ IsGauss) => LET K == KMat IN \A i, j \in 1..N : K[i][j] \in 0..KS
-InvGaussMono  == (Done /\ IsGauss) => LET K == KMat  D == DM IN
+InvSym        == ValState => LET K == KMat IN \A i, j \in 1..N : K[i][j] = K[j][i]
+InvGaussDiag  == (ValState /\ IsGauss) => LET K == KMat IN \A i \in 1..N : K[i][i] = KS
+InvGaussRange == (ValState /\ IsGauss) => LET K == KMat IN \A i, j \in 1..N : K[i][j] \in 0..KS
+InvGaussMono  == (ValState /\ IsGauss) => LET K == KMat  D == DM IN
                     \A i, j, l \in 1..N : D[i][j] <= D[i][l] => K[i][j] >= K[i][l]
-InvGaussPSD   == (Done /\ IsGauss) => PSDOn(N, KMat, ElemErr + 1)
-InvLinearPSD  == (Done /\ meth.name = "linear") => PSDOn(N, KMat, 0)          \* Gram matrix: exact
-InvPolyLinear == Done => KMatOf(pts, [name |-> "poly", en |-> 1, ed |-> 1, c |-> 0, d |-> 1])
+InvGaussPSD   == (ValState /\ IsGauss) => PSDOn(N, KMat, ElemErr + 1)
+InvLinearPSD  == (ValState /\ meth.name = "linear") => PSDOn(N, KMat, 0)          \* Gram matrix: exact
+InvPolyLinear == ValState => KMatOf(pts, [name |-> "poly", en |-> 1, ed |-> 1, c |-> 0, d |-> 1])
                            = KMatOf(pts, [name |-> "linear", en |-> 1, ed |-> 1, c |-> 0, d |-> 1])
 \* the pattern relation is satisfiable under both tie resolutions, and decides everything without ties
-InvPatFull     == Done => PatOK(pts, kk, FullPat)
-InvPatMin      == Done => PatOK(pts, kk, MinPat)
-InvPatUnique   == (Done /\ kk > 0 /\ NoTies) => FullPat = MinPat
-InvPatOneSided == (Done /\ kk > 0) => LET one == OneSided IN one # MinPat => ~PatOK(pts, kk, one)  \* not symmetrised: rejected
-InvPatKPlus    == (Done /\ kk > 0 /\ kk + 1 < N /\ NoTies) =>        \* k+1 or k-1 neighbours are rejected
+InvPatFull     == PatState => PatOK(pts, kk, FullPat)
+InvPatMin      == PatState => PatOK(pts, kk, MinPat)
+InvPatUnique   == (PatState /\ kk > 0 /\ NoTies) => FullPat = MinPat
+InvPatOneSided == (PatState /\ kk > 0) => LET one == OneSided IN one # MinPat => ~PatOK(pts, kk, one)  \* not symmetrised: rejected
+InvPatKPlus    == (PatState /\ kk > 0 /\ kk + 1 < N /\ NoTies) =>        \* k+1 or k-1 neighbours are rejected
                    LET full == FullPat  more == PatFor(kk + 1)
                    IN /\ (more # full => ~PatOK(pts, kk, more))
                       /\ (kk > 1 => LET less == PatFor(kk - 1) IN less # full => ~PatOK(pts, kk, less))
